@@ -271,6 +271,64 @@ def rule_e(chk, prog):
     chk.floor("C19.e", n, 3, "constructions of the daily water-table series")
 
 
+def rule_g(chk, prog):
+    """C19.g (each compartment's adjusted field capacity is built from its own properties): every store into the adjusted-field-capacity array
+    `A[k] = v` (both implementations) has a scalar index k, and every per-compartment hydraulic property read in v - `prof.th_fc[j]`, or a
+    field of a row `profile.loc[j]` - is taken at j = k. A slice target (`A[:k + 1] = prof.th_fc[k]`) gives the compartments above a far-away
+    table the field capacity of the compartment where the upward loop stopped."""
+    from ..rdef import flow_of, ENTRY
+    from ..model import walk_no_nested
+    HYD = {"th_fc", "th_s", "th_wp", "th_dry"}
+    n = 0
+    for fn in ("check_groundwater_table", "read_model_initial_conditions"):
+        fi = prog.find_func(fn)
+        flow = flow_of(fi)
+        cfg = flow.cfg
+        where = f"{fi.module}:{fi.qualname}"
+        chk.fn(fi.key)
+        for a in walk_no_nested(fi.node):
+            if not (isinstance(a, ast.Assign) and isinstance(a.targets[0], ast.Subscript) and isinstance(a.targets[0].value, ast.Name)):
+                continue
+            nm = a.targets[0].value.id.lower()
+            if not ("fc" in nm and "adj" in nm):
+                continue
+            n += 1
+            construct = norm(a)
+            k = a.targets[0].slice
+            if isinstance(k, ast.Slice):
+                reads = [x for x in ast.walk(a.value) if isinstance(x, ast.Subscript) and isinstance(x.value, ast.Attribute) and x.value.attr in HYD]
+                if reads and all(norm(x.slice) == norm(k) for x in reads):
+                    chk.ok("C19.g", where, construct, f"vectorised over the same slice [{norm(k)}] on both sides")
+                    continue
+            if not isinstance(k, (ast.Name, ast.Constant)):
+                chk.violation("C19.g", where, construct, f"the adjusted field capacity is stored through `{norm(k)}`, not into one compartment: several compartments receive "
+                              "one compartment's value", loc=fi.loc(a))
+                continue
+            ktxt = norm(k)
+            nid = flow.stmt_node.get(id(a))
+            bad = []
+            for x in ast.walk(a.value):
+                # prof.th_fc[j]
+                if isinstance(x, ast.Subscript) and isinstance(x.value, ast.Attribute) and x.value.attr in HYD:
+                    if norm(x.slice) != ktxt:
+                        bad.append(f"{norm(x)} read at [{norm(x.slice)}]")
+                # row.th_fc with row = profile.loc[j]
+                elif isinstance(x, ast.Attribute) and x.attr in HYD and isinstance(x.value, ast.Name) and isinstance(x.ctx, ast.Load):
+                    for d in (flow.defs_reaching(x.value.id, nid) if nid is not None else []):
+                        da = cfg.nodes[d].ast if d != ENTRY else None
+                        v = da.value if isinstance(da, ast.Assign) else None
+                        if isinstance(v, ast.Subscript) and isinstance(v.value, ast.Attribute) and v.value.attr in ("loc", "iloc"):
+                            if norm(v.slice) != ktxt:
+                                bad.append(f"{norm(x)} is the row {norm(v)}")
+                        elif v is not None and not isinstance(v, ast.Subscript):
+                            pass        # a scalar local (dV, dFC, Xmax): built from rows checked where they are defined
+            if bad:
+                chk.violation("C19.g", where, construct, f"compartment [{ktxt}] receives a value built from another compartment's properties: {'; '.join(bad)}", loc=fi.loc(a))
+            else:
+                chk.ok("C19.g", where, construct, f"own properties (index {ktxt})")
+    chk.floor("C19.g", n, 8, "stores into the adjusted-field-capacity array (daily and initial implementation)")
+
+
 def run(chk, prog, tier):
     res = batch(prog, [{"param_struct.water_table": 0}])[0]
     chk.fn(STEP_FN)
@@ -362,6 +420,9 @@ def run(chk, prog, tier):
     adjusted_fc_agreement(chk, prog, "C19.f")
     from ._siblings import wt_in_soil_agreement
     wt_in_soil_agreement(chk, prog, "C19.f")
+    rule_g(chk, prog)
+    from .c18 import rule_h as iwc_adjusted_fc
+    iwc_adjusted_fc(chk, prog, rule="C19.h")
     chk.assume("A-1")
     chk.assume("A-10")
     chk.exhaustive = True
